@@ -250,7 +250,24 @@ def fut_callback(name, fut):
         log("fut_done", fut=name, state="callback_error", err=repr(ex))
 
 
-def register_future(name, fut, raising_cb=False):
+CB_COUNT = [0]
+
+
+def resubmit_cb(name, exname, fut):
+    """From inside the done-callback of a future that failed with the pool's error, submit again:
+    the pool must refuse (C02: every later submit raises that same error)."""
+    try:
+        if fut.cancelled() or fut.exception() is None or not _is_cf_broken(fut.exception()):
+            return
+    except BaseException:
+        return
+    CB_COUNT[0] += 1
+    if CB_COUNT[0] > 4:
+        return
+    run_op({"op": "submit", "ex": exname, "task": {"k": "ok", "x": -1}, "id": "cb.%s.%d" % (name, CB_COUNT[0]), "from_callback": True}, Ctx(97))
+
+
+def register_future(name, fut, raising_cb=False, resubmit=None):
     with FUT_LOCK:
         FUTS[name] = fut
     if raising_cb:
@@ -261,6 +278,8 @@ def register_future(name, fut, raising_cb=False):
 
         fut.add_done_callback(bad_cb)
     fut.add_done_callback(functools.partial(fut_callback, name))
+    if resubmit:
+        fut.add_done_callback(functools.partial(resubmit_cb, name, resubmit))
 
 
 # ------------------------------------------------------------------ ops
@@ -346,7 +365,7 @@ def op_submit(op, oid, ctx):
     log("submit_call", oid=oid, ex=op["ex"], exid=id(ex), fut=fname, tid=tid, spec=spec, exp=exp,
         pickler=_pickler_name())
     fut = ex.submit(lv_tasks.run, spec, tid, *lv_tasks.make_args(spec))
-    register_future(fname, fut, raising_cb=bool(op.get("raising_cb")))
+    register_future(fname, fut, raising_cb=bool(op.get("raising_cb")), resubmit=(op["ex"] if op.get("resubmit_on_break") else None))
     remember(op["ex"], ex)
     return {"fut": fname}
 
